@@ -229,7 +229,16 @@ class NumpyCodegenMapper(CachedMapper[str, Never, []]):
             if isinstance(e, Array):
                 return ast.Name(self.rec(e))
             else:
-                if np.isnan(e):
+                if np.isnan(e) and not isinstance(e, np.generic):
+                    # A Python scalar is "weak" in NumPy's type promotion:
+                    # np.float64("nan") would turn a float32 result into float64.
+                    # generates code like: `float("nan")`.
+                    return ast.Call(
+                        func=ast.Name("complex" if isinstance(e, complex)
+                                      else "float"),
+                        args=[_constant(value="nan")],
+                        keywords=[])
+                elif np.isnan(e):
                     e_np = np.array(e)
                     # generates code like: `np.float64("nan")`.
                     return ast.Call(
@@ -311,23 +320,23 @@ class NumpyCodegenMapper(CachedMapper[str, Never, []]):
                                  }:
                 def _rec_arith_operand(e: ArrayOrScalar,
                                        other: ArrayOrScalar) -> ast.expr:
-                    ast_e = _rec_ary_or_constant(e)
-                    if (not isinstance(e, Array | np.generic)
+                    if (not isinstance(e, Array)
                             and isinstance(other, Array)
                             and np.result_type(other.dtype, e) != expr.dtype
                             # (true division of integers gives float64 anyway)
                             and not (hlo.binary_op == BinaryOpType.TRUEDIV
                                      and np.result_type(other.dtype, e).kind
                                      in "iub")):
-                        # *e* was a typed NumPy scalar when the expression was
-                        # built (NumPy hands it to the reflected operator as a
-                        # Python scalar). Emitted as a ("weak") Python scalar it
-                        # would not promote *other* to the result dtype.
-                        ast_e = ast.Call(
-                            ast.Attribute(ast.Name(self.numpy),
-                                          f"{expr.dtype.type.__name__}"),
-                            args=[ast_e], keywords=[])
-                    return ast_e
+                        # NumPy's promotion of *other* with the scalar as it
+                        # stands would not give the declared result dtype:
+                        # - *e* was a typed NumPy scalar when the expression was
+                        #   built (NumPy hands it to the reflected operator as a
+                        #   "weak" Python scalar), or
+                        # - *e* is a NaN, which pytato stores with a type of its
+                        #   own.
+                        # Emit the scalar with the result dtype.
+                        e = expr.dtype.type(e)
+                    return _rec_ary_or_constant(e)
 
                 rhs = ast.BinOp(left=_rec_arith_operand(hlo.x1, hlo.x2),
                                 op=SIMPLE_BINOP_TO_AST_OP[hlo.binary_op](),
